@@ -539,7 +539,7 @@ def create_checks(ctx, cex, rng, root):
             out = fakempi.run_world(size, create_program(str(root / f"c{size}"), df, centers, chunksize, mw, None), seed=seed,
                                     send_modes=("eager", "sync"), argfn=create_argfn(chunksize), nodes=nodes)
             oracle_create(ctx, out, n, f"size={size},n={n},chunksize={chunksize},max_workers={mw},nodes={'interleaved' if nodes else 'one'}", seed)
-            seg = spec_events(segment(out["log"], "write_patches"))
+            seg = spec_events(segment(out["log"], "write_patches")) if out["outcome"] == "ok" else []
             if seg:
                 seg[0] = dict(seg[0], writer=writer_of(seg))
                 traces.append(seg)
@@ -555,7 +555,8 @@ def create_checks(ctx, cex, rng, root):
                     e["cls"] = "EOQ"
                     break
             res, verdicts = tracecheck.validate("CreateMPITrace", consts, traces + [bad], invariants=["TypeOK"], extra_fields=dict(writer=-1))
-            ctx.add_tlc(f"CreateMPITrace Size={size} chunks={nc} mw={mw} Deviations={dev}", res, traces=len(traces))
+            if res.distinct:
+                ctx.add_tlc(f"CreateMPITrace Size={size} chunks={nc} mw={mw} Deviations={dev}", res, traces=len(traces))
             nacc = sum(ok for _, ok in verdicts[:-1])
             ctx.require(not verdicts[-1][1], "binding demonstration failed: corrupted create trace accepted")
             if nacc == len(traces):
